@@ -97,6 +97,13 @@ CHECKS = {
         design_ref="3/C04",
         note="Trusts TLC and the expansion oracle of the harness ($VERIFVAR, leading ~); fixed pool of ~30 strings; glob-looking words match nothing. One defect (glued injection expanded) is a known finding.",
     ),
+    "C02": dict(
+        category="model_checking",
+        technique="TLA+ spec Scope (lexical scope stack, binding forms, del/global, decision rule) checked by TLC; simulated and weighted statement sequences rendered to source, decided by the real three-phase Execer.parse, decisions validated against ScopeTrace by TLC; syntax-error inputs executed to show nothing runs",
+        text="TLC checks PythonWins, UnboundIsCommand and BlockRestores over all statement sequences of the bounded model (10 binding forms, def/class blocks to depth 2, global, del, five command-looking expression shapes, every session context); thousands of generated programs are parsed by the real execer and the Python-vs-command decision of every expression statement must be one the spec allows; inputs ending in a syntax error must raise SyntaxError with no statement executed.",
+        design_ref="3/C02",
+        note="Trusts TLC and the reading of decisions from the transformed tree; two names, depth <= 2; class-body-only bindings may be decided either way. Two binder defects are known findings.",
+    ),
 }
 
 ALL = [f"C{i:02d}" for i in range(1, 21)]
